@@ -89,4 +89,27 @@ CLAIMED["C17"] = {
     "text": "Decides statically: status bytes other than 0/1/2 reach only the LZMA chunk parser, whose first action is status & 0x80 == 0 -> Err; props >= 225 and lc + lp > 4 lead to Err and dominate the construction of the properties; the range decoder of a chunk reads from input.take(be16 + 1); the output target ((status & 0x1F) << 16 | be16) + 1 + produced is set before decoding and the Finish-mode final equality with unclamped copy lengths makes over/under-production an error; uncompressed chunks are one read_exact of be16 + 1 bytes. Input ending early surfaces as the read error that C12.R1 shows is propagated.",
     "note": "Trusts rustc's MIR; io::Take yields EOF at its limit (std contract).",
 }
-NOT_APPLICABLE = {p: WIP for p in ["C01","C02","C03","C04","C05","C15"]}
+
+PARTIAL = "PARTIAL CLAIM - decides the named structural clauses, each a necessary condition of the property (breaking one breaks decoding of some well-formed input); it does NOT decide the behaviour itself: "
+CLAIMED["C01"] = {
+    "engine": "E-CFG/E-TERM",
+    "technique": "static analysis: header-field map, symbol-automaton constants, context-index terms, who-writes enumeration of the circular window, table shapes (MIR facts, provenance terms)",
+    "design_ref": "DESIGN.md section 4 / C01",
+    "text": PARTIAL + "the properties byte is split as lc = b % 9, lp = b / 9 % 5, pb = b / 45 with the only rejection b >= 225 and the dictionary size clamped up to 4096; the state automaton uses the format's constants (literal <7 / <10 thresholds with decrements 3 / 6, match 7/10, rep 8/11, short rep 9/11), the rep rotation and the +2 / end-marker terms; literal and distance context indices are the format's expressions; cursor/len/buf of the circular window are written only by append_literal (wrap at dict_size) and finish slices [0, cursor); probability tables have the format's shapes and 0x400 initialiser. Declined (not static): that the range-coder arithmetic yields the encoder's bits, i.e. byte-exact output - this needs value-level reasoning over 2^32-range arithmetic on every path.",
+    "note": "Trusts rustc's MIR; the constants in rules/C01.py transcribe the LZMA specification.",
+}
+CLAIMED["C02"] = {
+    "engine": "E-CFG/E-TERM",
+    "technique": "static analysis: reset-class table read off the SwitchInt on (status >> 5) & 3, size-field provenance terms, control dependence of resets on the flags, order of the produced-length read vs the dictionary reset, sibling agreement reset_state/constructor (MIR facts)",
+    "design_ref": "DESIGN.md section 4 / C02",
+    "text": PARTIAL + "the control byte selects the format's (dictionary, state, properties) reset class and status 1/2 map to uncompressed chunks with/without dictionary reset; unpacked/packed/uncompressed sizes are the format's big-endian terms; the window is reset iff reset_dict, the decoder state iff reset_state with new-or-stored properties, and nothing else in the chunk parser modifies the state; the output target reads the produced length after the dictionary reset; a state reset re-initialises every field of the decoder state; uncompressed bytes extend the same history and advance the produced length by the slice length. Declined: the payload of compressed chunks (C01's declined part).",
+    "note": "Trusts rustc's MIR; the table in rules/C02.py transcribes the LZMA2 format.",
+}
+CLAIMED["C03"] = {
+    "engine": "E-CFG/E-TERM",
+    "technique": "static analysis: extraction of the container-arithmetic terms from MIR and their exhaustive/residue-covering evaluation under the compiled integer widths against the format's formulas; control dependence; must-pass-through (MIR facts)",
+    "design_ref": "DESIGN.md section 4 / C03",
+    "text": PARTIAL + "block and index padding is (-count) mod 4 (term evaluated on all residues and near 2^32); multi-byte integers use (byte & 0x7F) << 7i, continuation bit 0x80 (all 256 byte values), at most 9 bytes; the block header spans 4b - 1 bytes for all 255 size bytes with no overflow in the compiled widths; the byte counter feeding a block's index record is created per block and the record is (count after the check field - padding, decoded length); the check field is 0/4/8 bytes little-endian compared with the checksum of the block's bytes; optional size fields are read iff flag bits 0x40/0x80 and the filter count is (flags & 3) + 1 for all 256 flag bytes; the block loop dispatches 0 -> index (leave) / other -> block (continue) and every Ok path of read_block writes the block to the sink once. Declined: payload decoding (C02/C01), CRC arithmetic (crc crate).",
+    "note": "Trusts rustc's MIR; the formulas in rules/C03.py transcribe xz-file-format 1.0.4; evaluates extracted expression terms (not the program).",
+}
+NOT_APPLICABLE = {p: WIP for p in ["C04","C05","C15"]}
